@@ -149,13 +149,13 @@ func addLeaf(l *leafDef) {
 	leafByName[l.name] = l
 }
 
-func L(name string) *Shape  { return &Shape{K: "leaf", Leaf: name} }
-func P(e *Shape) *Shape     { return &Shape{K: "ptr", Elem: e} }
-func Sl(e *Shape) *Shape    { return &Shape{K: "slice", Elem: e} }
-func SlA(e *Shape) *Shape   { return &Shape{K: "slice", Elem: e, Any: true} }
+func L(name string) *Shape          { return &Shape{K: "leaf", Leaf: name} }
+func P(e *Shape) *Shape             { return &Shape{K: "ptr", Elem: e} }
+func Sl(e *Shape) *Shape            { return &Shape{K: "slice", Elem: e} }
+func SlA(e *Shape) *Shape           { return &Shape{K: "slice", Elem: e, Any: true} }
 func Mp(k string, e *Shape) *Shape  { return &Shape{K: "map", Key: k, Elem: e} }
 func MpA(k string, e *Shape) *Shape { return &Shape{K: "map", Key: k, Elem: e, Any: true} }
-func Bx(e *Shape) *Shape    { return &Shape{K: "box", Elem: e} }
+func Bx(e *Shape) *Shape            { return &Shape{K: "box", Elem: e} }
 
 // registerAll registers every named type through the public registration function and returns the errors.
 func registerAll() []string {
@@ -204,7 +204,7 @@ func registeredComposite(s *Shape) bool {
 	return false
 }
 
-var mapKeys = []string{"string", "int", "bool", "NStr", "SKey", "any"}
+var mapKeys = []string{"string", "int", "bool", "NStr", "SKey", "SKeyAny", "any"}
 
 func init() {
 	const big = int64(1)<<53 + 1
@@ -243,7 +243,9 @@ func init() {
 		addLeaf(&leafDef{name: name, kind: "struct", t: reflect.TypeOf(v), sdef: d, inThor: thor})
 	}
 	f := func(name string, s *Shape) fieldDef { return fieldDef{name: name, shapes: []*Shape{s}} }
-	fa := func(name string, contents ...*Shape) fieldDef { return fieldDef{name: name, shapes: contents, isAny: true} }
+	fa := func(name string, contents ...*Shape) fieldDef {
+		return fieldDef{name: name, shapes: contents, isAny: true}
+	}
 
 	str("SBasic", true, SBasic{}, &structDef{fields: []fieldDef{
 		f("B", L("bool")), f("I", L("int")), f("I64", L("int64")), f("U64", L("uint64")), f("F", L("float64")), f("S", L("string")), f("N", L("NStr")),
